@@ -110,11 +110,19 @@ def readFieldBegin (e : Endian) (bs : Bytes) : Out ((TType × Int) × Bytes) :=
       | .err k => .err k | .panic s => .panic s | .fuel => .fuel
   | .err k => .err k | .panic s => .panic s | .fuel => .fuel
 
+/-- `check_container_size`: a count below zero or above the number of remaining bytes is rejected
+(every element occupies at least one byte). -/
+def checkSize (n : Int) (r : Bytes) : Out Nat :=
+  if n < 0 then .err .invalid
+  else if n.toNat ≤ r.length then .ok n.toNat else .err .invalid
+
 /-- `read_list_begin` / `read_set_begin`. -/
 def readListBegin (e : Endian) (bs : Bytes) : Out ((TType × Nat) × Bytes) :=
   match readTType bs with
   | .ok (t, r) => match readI e 4 r with
-    | .ok (n, r) => .ok ((t, asUsize n), r)
+    | .ok (n, r) => match checkSize n r with
+      | .ok n => .ok ((t, n), r)
+      | .err k => .err k | .panic s => .panic s | .fuel => .fuel
     | .err k => .err k | .panic s => .panic s | .fuel => .fuel
   | .err k => .err k | .panic s => .panic s | .fuel => .fuel
 
@@ -122,7 +130,9 @@ def readMapBegin (e : Endian) (bs : Bytes) : Out ((TType × TType × Nat) × Byt
   match readTType bs with
   | .ok (kt, r) => match readTType r with
     | .ok (vt, r) => match readI e 4 r with
-      | .ok (n, r) => .ok ((kt, vt, asUsize n), r)
+      | .ok (n, r) => match checkSize n r with
+        | .ok n => .ok ((kt, vt, n), r)
+        | .err k => .err k | .panic s => .panic s | .fuel => .fuel
       | .err k => .err k | .panic s => .panic s | .fuel => .fuel
     | .err k => .err k | .panic s => .panic s | .fuel => .fuel
   | .err k => .err k | .panic s => .panic s | .fuel => .fuel
